@@ -26,5 +26,5 @@ def Q(name, defs, note, **kw):
 ASSUMPTIONS = ['tier S: one call of one real group function from an arbitrary 64-bit dg_state (restricted only by the documented caller contract, e.g. leave needs count >= 1); interference: at most 2 arbitrary replacements of the word by other threads at atomic access points',
                'kernel wait (_dispatch_wait_on_address / futex) is a stub returning 0, EINTR or ETIMEDOUT with the generation optionally advanced; at most 3 sleeps per wait',
                'queue push, retain/release and wake-by-address are counting stubs']
-LEVEL_TEXT = 'Tier S over all 2^64 dg_state words with bounded interference: enter/leave count arithmetic with the generation carry exactly at 1->0, the leaver clears HAS_WAITERS only if the group was not re-entered, the waker is told exactly the flags found; wait returns 0 only after observing count 0 or a generation change and non-zero only after the kernel reported the timeout (EINTR/spurious wake-ups injected, <=3 sleeps); notify arms HAS_NOTIFS or fires at once at count 0; _dispatch_group_wake submits each queued notification exactly once in order, wakes sleepers iff HAS_WAITERS, balances references.'
-LEVEL_NOTE = 'Each lemma is one call of one real function under <=2 interfering replacements of the state word; multi-call schedules are not enumerated; kernel wait is a stub.'
+LEVEL_TEXT = 'Tier S over all 2^64 dg_state words with bounded interference: enter/leave count arithmetic with the generation carry exactly at 1->0, the leaver clears HAS_WAITERS only if the group was not re-entered, the waker is told exactly the flags found; wait returns 0 only after observing count 0 or a generation change and non-zero only after the kernel reported the timeout (EINTR/spurious wake-ups injected, <=3 sleeps); notify arms HAS_NOTIFS or fires at once at count 0; _dispatch_group_wake submits each queued notification exactly once in order, wakes sleepers iff HAS_WAITERS, balances references. SNAPSHOT lemma: while _dispatch_group_wake is firing, another thread (after re-entering the group) registers a new notification - injected with the exact memory effect of the real MPSC push after each submission - and it is never fired by that wake and stays on the list for its own generation.'
+LEVEL_NOTE = 'Each lemma is one call of one real function under <=2 interfering replacements of the state word; multi-call schedules are not enumerated; kernel wait is a stub. A tier-Q kernel for the group (final leave x re-enter+notify x wait, experiments/h_group_q_tierQ.c) was built and runs out of 24 GB in symbolic execution (25 resumable functions): not registered.'
